@@ -147,7 +147,9 @@ def run_conc(pid, tier, seed, plan):
             transitions += res.generated
             model_notes.append({"model": m["module"], "config": m["tag"], "distinct_states": res.distinct, "transitions": res.generated, "tlc_wall_s": round(res.wall, 1)})
             log("%s model %s/%s: %d states, %d transitions (%.1fs)" % (pid, m["module"], m["tag"], res.distinct, res.generated, res.wall))
-        exe = build(plan["runner"]["source"], defines=plan["runner"].get("defines", ()), sanitize=plan["runner"].get("sanitize", True), name=plan["runner"]["name"])
+        runners = plan.get("runners") or [plan["runner"]]
+        exes = build_many([dict(source=r["source"], defines=r.get("defines", ()), sanitize=r.get("sanitize", True), name=r["name"]) for r in runners])
+        exe = exes[0]
         # model sensitivity + corpus of counterexample schedules replayed on the real code
         corpus_notes = []
         tasks = []
@@ -157,19 +159,24 @@ def run_conc(pid, tier, seed, plan):
                 raise MachineryError("model %s does not notice defect %s" % (c["module"], c["defect"]))
             corpus_notes.append({"defect": c["defect"], "violates": inv, "scenario": c["scenario"], "schedule": sched})
             log("%s model %s with defect %s violates %s (schedule of %d steps replayed on the real code)" % (pid, c["module"], c["defect"], inv, len(sched)))
-            tasks.append((c["scenario"], ["model"] + sched, "corpus%d" % len(corpus_notes)))
+            tasks.append((c["scenario"], ["model"] + sched, "corpus%d" % len(corpus_notes), 0))
         quick = tier == "quick"
         for i, sc in enumerate(plan["scenarios"]):
             nthreads = sc["scenario"].count("|") + 1
+            ri = sc.get("runner", i % len(exes))
             if sc.get("dfs", True):
                 bound = sc.get("bound", 2 if nthreads <= 2 else 1) + (0 if quick else 1)
-                tasks.append((sc["scenario"], ["dfs", bound, sc.get("max", 4000 if quick else 60000)], "s%02d-dfs" % i))
+                tasks.append((sc["scenario"], ["dfs", bound, sc.get("max", 4000 if quick else 60000)], "s%02d-dfs" % i, ri))
             nr = sc.get("rand", 300 if quick else 5000)
             if nr:
-                tasks.append((sc["scenario"], ["rand", seed * 1000 + i, nr], "s%02d-rnd" % i))
+                tasks.append((sc["scenario"], ["rand", seed * 1000 + i, nr], "s%02d-rnd" % i, ri))
 
         def work(t):
-            return explore_scenario(exe, t[0], t[1], plan["trace_module"], wd, t[2])
+            r = explore_scenario(exes[t[3]], t[0], t[1], plan["trace_module"], wd, t[2])
+            r["runner"] = t[3]
+            for x in r["rejections"]:
+                x["runner"] = t[3]
+            return r
         with ThreadPoolExecutor(max_workers=NCPU) as ex:
             results = list(ex.map(work, tasks))
         total_exec = sum(r["executions"] for r in results)
@@ -182,7 +189,7 @@ def run_conc(pid, tier, seed, plan):
         violations = 0
         seen = set()
         for r in rejections[:4]:
-            if not confirm(exe, r, plan["trace_module"], wd):
+            if not confirm(exes[r.get("runner", 0)], r, plan["trace_module"], wd):
                 raise MachineryError("rejection did not repeat on replay: %s %s" % (r["scenario"], r["schedule"]))
             import hashlib
             ln = r.get("trace_line") or 0
@@ -197,7 +204,7 @@ def run_conc(pid, tier, seed, plan):
             if kf:
                 print("KNOWN-FINDING: property=%s %s" % (pid, kf[0]["text"]))
                 continue
-            replay = write_replay(pid, {"property": pid, "engine": "conc", "runner": plan["runner"], "scenario": r["scenario"], "schedule": r["schedule"],
+            replay = write_replay(pid, {"property": pid, "engine": "conc", "runner": runners[r.get("runner", 0)], "scenario": r["scenario"], "schedule": r["schedule"],
                                        "trace_module": plan["trace_module"], "first_unmatched_event": bad_event, "trace": exn,
                                        "runner_rc": r.get("runner_rc"), "runner_err": r.get("runner_err", ""), "finding_key": key})
             print("VIOLATION property=%s replay=%s" % (pid, replay))
@@ -210,7 +217,7 @@ def run_conc(pid, tier, seed, plan):
                "distinct_nontrivial": sum(r["distinct_nontrivial"] for r in results),
                "rule": plan["rule"], "samples": samples, "exhaustive": False,
                "models": model_notes, "defect_sensitivity": corpus_notes,
-               "scenarios": [{"scenario": r["scenario"], "mode": r["mode"], "executions": r["executions"], "dfs_exhausted_within_bound": r["stats"].get("exhausted") == 1,
+               "scenarios": [{"scenario": r["scenario"], "mode": r["mode"], "runner": runners[r["runner"]]["name"], "executions": r["executions"], "dfs_exhausted_within_bound": r["stats"].get("exhausted") == 1,
                               "legit_stuck": r["stats"].get("stuck", 0)} for r in results],
                "repo_include_hash": repo_hash(), "further_rejections_not_individually_reported": max(0, len(rejections) - 4)}
         write_evidence(pid, tier, seed, "model_checking", cov, time.time() - t0, violations, plan.get("assumptions", ()))
